@@ -23,6 +23,20 @@ PENDING = {
     "C20": "check designed (DESIGN.md sect. 4, engine S) but not built yet; not claimed until it runs",
 }
 TEXT = {
+    "C04": {
+        "engine": "S",
+        "design_ref": "DESIGN.md sect. 4 (C04), sect. 3.1-3.5",
+        "technique": "deterministic simulation with fault injection: connectconformance.Run driven inside the simulator with scripted peers in every process slot; seeded case fates x markings x feedback x process fates x schedules; oracle = independent truth-table reference model of the success rule compared with Run's boolean, plus output laws; shrinking + exact tape replay",
+        "level_text": "Seeded exploration of histories: each run executes Run() itself on the current tree (config and suite files, patterns, run(), batches, report) against scripted client/server processes whose per-case fates (pass, assertion failure, client error, neither, never answered), markings, reference-peer feedback and process fates (clean early exit, non-zero exit, stall, cut output, server start failure/garbage/never/death mid-batch) come from the tape; success is compared with a reference model of the statement (iff, with runs whose delivery is undetermined counted as inconclusive), every unmet case must be named, totals must add up. Evidence, not proof.",
+        "level_note": "Trusted: simrt scheduler/instrumenter (checked at run time), synctest clock, io.Pipe, the library's own expansion for the selected set (C07/C08 assumed). OS processes stubbed by in-process peers through runInProcess.",
+    },
+    "C05": {
+        "engine": "S",
+        "design_ref": "DESIGN.md sect. 4 (C05), sect. 3.1-3.5",
+        "technique": "deterministic simulation: Run() with recording scripted peers under a seeded scheduler (batch interleavings, seeded server-instance order, --max-servers 1-4, latencies, peer faults); invariant after every step (running servers <= max-servers) and history oracle (exactly-once hand-over, matching live server, address/cert/test-name header, gRPC markers to gRPC slots, every peer stopped, termination); shrinking + exact tape replay",
+        "level_text": "Seeded exploration of configurations x schedules: generated configs (HTTP/1.1, HTTP/2, Connect/gRPC/gRPC-Web, proto/json, optional TLS) and suites, --run/--skip patterns, reference or under-test slots (gRPC-peer permutations and marked names), max-servers 1-4; the scripted peers record every ServerCompatRequest and ClientCompatRequest with the scheduler step; each selected permutation must reach a client exactly once (at most once under peer faults), addressed to a server started for exactly its instance and still up, never exceeding max-servers, every peer stopped, Run terminating. Evidence, not proof.",
+        "level_note": "Trusted: as C04; the selected set comes from the library (C07/C08 assumed). cmdProcess (real OS processes, SIGTERM/WaitDelay) is outside the simulator: 'alive' is judged on scripted in-process servers that have not yet been asked to stop.",
+    },
     "C11": {
         "engine": "S",
         "design_ref": "DESIGN.md sect. 4 (C11), sect. 3.1-3.5",
